@@ -34,6 +34,8 @@ from rtamt.syntax.node.ltl.rise import Rise
 from rtamt.syntax.node.ltl.constant import Constant
 from rtamt.syntax.node.ltl.previous import Previous
 
+from fractions import Fraction
+
 from rtamt.exception.exception import RTAMTException
 from rtamt.pastifier.stl.horizon import StlHorizon, bounds_in_default_unit
 
@@ -47,6 +49,7 @@ class StlPastifier(LtlPastifier, StlAstVisitor):
     def pastify(self, ast):
         self.ast = ast
         h = StlHorizon(ast)
+        h.sample = self.sample
         horizons = dict()
         for spec in ast.specs:
             horizon = h.visit(spec, None)
@@ -82,6 +85,7 @@ class StlPastifier(LtlPastifier, StlAstVisitor):
 
     def visitTimedEventually(self, node, *args, **kwargs):
         begin, end = bounds_in_default_unit(self.ast, node)
+        self.check_multiple(begin, end)
         horizon = args[0] - end
         node = self.visit(node.children[0], horizon)
         if end - begin > 0:
@@ -90,6 +94,7 @@ class StlPastifier(LtlPastifier, StlAstVisitor):
 
     def visitTimedAlways(self, node, *args, **kwargs):
         begin, end = bounds_in_default_unit(self.ast, node)
+        self.check_multiple(begin, end)
         horizon = args[0] - end
         node = self.visit(node.children[0], horizon)
         if end - begin > 0:
@@ -98,6 +103,7 @@ class StlPastifier(LtlPastifier, StlAstVisitor):
 
     def visitTimedUntil(self, node, *args, **kwargs):
         begin, end = bounds_in_default_unit(self.ast, node)
+        self.check_multiple(begin, end)
         horizon = args[0] - end
         child1_node = self.visit(node.children[0], horizon)
         child2_node = self.visit(node.children[1], horizon)
@@ -417,14 +423,21 @@ class StlPastifier(LtlPastifier, StlAstVisitor):
         return node
 
     def visitNext(self, node, *args, **kwargs):
-        horizon = args[0] - 1
+        horizon = args[0] - (self.sample or 1)
         child_node = self.visit(node.children[0], horizon)
         return child_node
 
     def visitStrongNext(self, node, *args, **kwargs):
-        horizon = args[0] - 1
+        horizon = args[0] - (self.sample or 1)
         child_node = self.visit(node.children[0], horizon)
         return child_node
+
+    def check_multiple(self, *bounds):
+        # the bounds of a future operator vanish into delays: check them while they are still visible
+        if self.sample is not None:
+            for bound in bounds:
+                if (Fraction(bound) / self.sample).denominator != 1:
+                    raise RTAMTException('The operator bound must be a multiple of the sampling period')
 
     def visitHistorically(self, node, *args, **kwargs):
         node_horizon = self.subformula_horizons[node]
